@@ -107,12 +107,23 @@ func loadProgram(repo, harnessDir, rtDir string, tags string, shared []string) (
 	defer os.Setenv("PATH", origPath)
 	env := os.Environ()
 	env = append(env, "GOTOOLCHAIN=local", "GOFLAGS=-mod=mod", "GOPROXY=off", "GOSUMDB=off")
+	buildFlags := []string{"-tags=" + tags}
+	if len(modReplace) > 0 {
+		mtmp, err := os.MkdirTemp("", "gsx-mod-")
+		if err != nil {
+			return nil, err
+		}
+		defer os.RemoveAll(mtmp)
+		if mf := privateModfile(repo, mtmp); mf != "" {
+			buildFlags = append(buildFlags, "-modfile="+mf)
+		}
+	}
 	cfg := &packages.Config{
 		Mode:       packages.LoadAllSyntax | packages.NeedModule,
 		Dir:        repo,
 		Env:        env,
 		Overlay:    overlay,
-		BuildFlags: []string{"-tags=" + tags},
+		BuildFlags: buildFlags,
 	}
 	var patterns []string
 	for _, d := range dirs {
